@@ -35,7 +35,7 @@ import (
 )
 
 type Reader struct {
-	reader    io.Reader
+	reader    normalizingReader
 	buffer    []byte
 	bytesRead uint64
 	config    *configuration.Configuration
@@ -53,7 +53,7 @@ func (_this *Reader) Init(config *configuration.Configuration) {
 }
 
 func (_this *Reader) SetReader(reader io.Reader) {
-	_this.reader = reader
+	_this.reader.Init(reader)
 }
 
 func (_this *Reader) ReadUint8() uint8 {
@@ -144,7 +144,7 @@ func (_this *Reader) ReadFloat64() float64 {
 }
 
 func (_this *Reader) ReadDecimalFloat() (compact_float.DFloat, *apd.Decimal) {
-	value, bigValue, _, err := compact_float.DecodeWithByteBuffer(_this.reader, _this.buffer)
+	value, bigValue, _, err := compact_float.DecodeWithByteBuffer(&_this.reader, _this.buffer)
 	if err != nil {
 		_this.unexpectedError(err)
 	}
@@ -153,7 +153,7 @@ func (_this *Reader) ReadDecimalFloat() (compact_float.DFloat, *apd.Decimal) {
 }
 
 func (_this *Reader) ReadDate() compact_time.Time {
-	value, _, err := compact_time.DecodeDateWithBuffer(_this.reader, _this.buffer)
+	value, _, err := compact_time.DecodeDateWithBuffer(&_this.reader, _this.buffer)
 	if err != nil {
 		_this.unexpectedError(err)
 	}
@@ -162,7 +162,7 @@ func (_this *Reader) ReadDate() compact_time.Time {
 }
 
 func (_this *Reader) ReadTime() compact_time.Time {
-	value, _, err := compact_time.DecodeTimeWithBuffer(_this.reader, _this.buffer)
+	value, _, err := compact_time.DecodeTimeWithBuffer(&_this.reader, _this.buffer)
 	if err != nil {
 		_this.unexpectedError(err)
 	}
@@ -171,7 +171,7 @@ func (_this *Reader) ReadTime() compact_time.Time {
 }
 
 func (_this *Reader) ReadTimestamp() compact_time.Time {
-	value, _, err := compact_time.DecodeTimestampWithBuffer(_this.reader, _this.buffer)
+	value, _, err := compact_time.DecodeTimestampWithBuffer(&_this.reader, _this.buffer)
 	if err != nil {
 		_this.unexpectedError(err)
 	}
@@ -199,6 +199,46 @@ func (_this *Reader) ReadIdentifier() []byte {
 
 // ============================================================================
 
+// normalizingReader adapts any io.Reader to the stricter behaviour this decoder (and the decoders
+// of go-uleb128, go-compact-float and go-compact-time that it hands the reader to) relies on:
+// a call returns either at least one byte and a nil error, or no bytes and a non-nil error.
+// An error that arrives together with data (which io.Reader permits, e.g. the last bytes plus
+// io.EOF) is reported by the next call, and reads that return nothing and no error are retried.
+type normalizingReader struct {
+	reader     io.Reader
+	pendingErr error
+}
+
+const maxConsecutiveEmptyReads = 100
+
+func (_this *normalizingReader) Init(reader io.Reader) {
+	_this.reader = reader
+	_this.pendingErr = nil
+}
+
+func (_this *normalizingReader) Read(p []byte) (int, error) {
+	if len(p) == 0 {
+		return 0, nil
+	}
+	if _this.pendingErr != nil {
+		return 0, _this.pendingErr
+	}
+	for i := 0; i < maxConsecutiveEmptyReads; i++ {
+		n, err := _this.reader.Read(p)
+		if n > 0 {
+			_this.pendingErr = err
+			return n, nil
+		}
+		if err != nil {
+			_this.pendingErr = err
+			return 0, err
+		}
+	}
+	return 0, io.ErrNoProgress
+}
+
+// ============================================================================
+
 // Internal
 
 // TODO: Check max big.int bit count
@@ -214,7 +254,7 @@ func (_this *Reader) markBytesRead(byteCount int) {
 }
 
 func (_this *Reader) readSmallULEB128(name string, maxValue uint64) uint64 {
-	asUint, asBig, _, err := uleb128.DecodeWithByteBuffer(_this.reader, _this.buffer)
+	asUint, asBig, _, err := uleb128.DecodeWithByteBuffer(&_this.reader, _this.buffer)
 	if err != nil {
 		_this.unexpectedError(err)
 	}
